@@ -779,11 +779,14 @@ protected:
                 else if (XalanUnicode::charCR == theChar ||
                          (XMLVersion == XML_VERSION_1_1 &&
                           (XalanUnicode::charNEL == theChar ||
-                           XalanUnicode::charLSEP == theChar)))
+                           XalanUnicode::charLSEP == theChar ||
+                           m_charPredicate.isCharRefForbidden(theChar))))
                 {
                     // A parser normalizes these characters to a line
-                    // feed when they appear literally, so close the
-                    // CDATA section and write a character reference.
+                    // feed when they appear literally, and XML 1.1
+                    // allows the restricted characters only as
+                    // character references, so close the CDATA
+                    // section and write a character reference.
                     // The section is re-opened by the next character
                     // that goes into it.
                     if (outsideCDATA == false)
